@@ -51,11 +51,15 @@ func ReadChunks(ctx context.Context, r io.Reader) *ChunkIterator {
 	ipc := make(chan *birch.Document)
 	ctx, iter.cancel = context.WithCancel(ctx)
 
+	// each producer registers its error before it closes its channel, so
+	// that a consumer that has seen the end of the stream also sees the error
 	go func() {
+		defer close(ipc)
 		iter.catcher.Add(readDiagnostic(ctx, r, ipc))
 	}()
 
 	go func() {
+		defer close(iter.pipe)
 		iter.catcher.Add(readChunks(ctx, ipc, iter.pipe))
 	}()
 
